@@ -330,7 +330,8 @@ def run_case(case):
         w, p, o = one(bad_plan, 'j2', env_extra={'ZTR_REPORT_CUT': cut})
         C('child_fault_cases')
         C('verdicts_judged')
-        was_cut = any(e['k'] == 'report.cut' for e in w.events)
+        was_cut = any(e['k'] == 'report.cut' and e['total'] - e['at'] > 1
+                      for e in w.events)
         if w.raised is not None:
             V('run-aborted-on-cut-report', 'run-raised',
               tb=(w.raised_tb or '')[-600:])
